@@ -22,6 +22,7 @@ decode to arrays on the local disk — see known_findings.json.
 import Alos2.Proofs.Flow
 import Alos2.Proofs.Bridge
 import Alos2.Proofs.BridgeTotal
+import Alos2.Proofs.ProductCached
 
 namespace Alos2.C07
 
@@ -111,5 +112,38 @@ theorem concrete_group_is_uncached_open (fr : FloatRepr) (root : String) (file :
     bridge fr root name n2 g2 = some (cg1.withRpc rpc2) :=
   open_image_bridge_stable fr root file name rpc1 rpc2 n1 n2 g1 g2 cg1 h1 h2 hb hd1 hd2 recs1 recs2 hr1 hr2 L hL hdrL t ht
     hrl1 hty1 hrl2 hty2
+
+/-- THE WHOLE PRODUCT (`Model/ProductCached.lean`: `io.open` with its loop over the image files and one pair of index files per
+    image, tied by H12): if the head of the product opens and every image satisfies `ImgOK` (its uncached open is one group up to
+    the chunk size — C06 — and `EnvOK`; discharged for well-framed image files by `product_image_ok`), then whatever benign index
+    files lie in the user cache directory / next to the images (absent, complete documents written at ANY chunk sizes, prefixes),
+    whatever the options, the tree returned IS the tree of an uncached open at the chunk size of this call — and that open succeeds -/
+theorem product_cache_transparent (fr : FloatRepr) (loads : List Char → Except Err PyVal) (root : String) (fs : Files)
+    (G : String → CGroup) (ra : KVs Leaf) (su : List (String × SGroup)) (me : Grp Leaf) (imgs : List String)
+    (hh : openProductHead fs = .ok (ra, su, me, imgs))
+    (hok : ∀ name ∈ imgs, ImgOK fr loads root fs name (G name))
+    (c : Caches) (hc : PInv loads G imgs c) (use create : Bool) (rpc : Nat) (hr : 0 < rpc) :
+    (openProductCached fr loads root fs c use create rpc).1 = openProductC fr root fs rpc ∧
+    (∃ p, openProductC fr root fs rpc = .ok p) :=
+  ⟨(openProductCached_correct fr loads root fs G ra su me imgs hh hok c hc use create rpc hr).1, (openProductCached_correct fr loads root fs G ra su me imgs hh hok c hc use create rpc hr).2.1⟩
+
+/-- `ImgOK` discharged for a well-framed image file of the product (`concrete_env_ok` + `open_image_bridge_stable`) -/
+theorem product_image_ok (fr : FloatRepr) (hfr : fr.OK) (loads : List Char → Except Err PyVal)
+    (hJ1 : ∀ d : PyVal, d.TupleFree = true → d.WF = true → loads (dump d) = .ok d)
+    (hJ2 : ∀ t : List Char, (¬ Balanced t ∨ t = []) → ∃ e, loads t = .error e)
+    (root : String) (fs : Files) (name : String) (file : Bytes) (hget : fs.get name = some file)
+    (gname : String) (g : ImageGroup) (cg : CGroup)
+    (h : openImageFile file name 1 = .ok (gname, g)) (hb : bridge fr root name gname g = some cg)
+    (header : Val) (recs : List Val) (hr : readImageRecords file 1 = .ok (header, recs)) (hn : 0 < recs.length)
+    (hk : (∀ r ∈ recs, IsLineRecord Gen.processedDataRecord r) ∨ (∀ r ∈ recs, IsLineRecord Gen.signalDataRecord r))
+    (hd : DatesOK g = true)
+    (hopen : ∀ r, 0 < r → ∃ n2 g2 hd2 recs2, openImageFile file name r = .ok (n2, g2) ∧ readImageRecords file r = .ok (hd2, recs2) ∧
+      ∃ (L : Nat) (t : Nat), 0 < L ∧ intAt header ["sar_data_record_length"] = .ok (L : Int) ∧ (t = 10 ∨ t = 11) ∧
+        (∀ x ∈ recs, intAt x ["preamble", "record_length"] = .ok (L : Int)) ∧
+        (∀ x ∈ recs, intAt x ["preamble", "record_type"] = .ok (t : Int)) ∧
+        (∀ x ∈ recs2, intAt x ["preamble", "record_length"] = .ok (L : Int)) ∧
+        (∀ x ∈ recs2, intAt x ["preamble", "record_type"] = .ok (t : Int))) :
+    ImgOK fr loads root fs name (cg.withRpc 1) :=
+  imgOK_concrete fr hfr loads hJ1 hJ2 root fs name file hget gname g cg h hb header recs hr hn hk hd hopen
 
 end Alos2.C07
